@@ -199,8 +199,10 @@ def rule_keys(ck, fi):
         n += 1
         ck.ob("C47.cgi-keys", fi, asg, k in table, "environ contains the required key %s" % k, construct="environ key %s" % k)
     # the function returns that dict
-    rets = [r for r in q.walk_body(fi.node) if isinstance(r, ast.Return)]
-    ck.ob("C47.cgi-keys", fi, fi.node, bool(rets) and all(q.dotted(r.value) == envname for r in rets), "environ() returns the dict it built", construct="return environ")
+    rets = [nd.ast for nd in fi.cfg.stmt_nodes(lambda nd: nd.kind == "stmt" and isinstance(nd.ast, ast.Return))]   # reachable returns only
+    if not rets:
+        raise AnalysisError("C47.cgi-keys: environ() has no reachable return statement")
+    ck.ob("C47.cgi-keys", fi, fi.node, all(q.dotted(r.value) == envname for r in rets), "environ() returns the dict it built", construct="return environ")
 
     def prov(key, pred, what):
         nonlocal n
